@@ -75,3 +75,7 @@ TABLE["C11"] = dict(engine="simworld", technique="property-based testing: Hypoth
 TABLE["C17"] = dict(engine="simworld", technique="property-based testing: Hypothesis-generated close() points over the dilated world (tape-chosen, or steered to the moment a given Manager/Connector state is observed), peer variants (dilating, non-dilating, never dilates, turning silent), half-dead links; oracle = closed fires once and at that moment the side owns no listener, pending attempt or open TCP connection; incapable peer => connect() fails with OldPeerCannotDilateError",
     text="close() is issued at every reachable Manager state (incl. FLUSHING/LONELY/ABANDONING and a candidate awaiting accept, reached by generator steering) against real peers; what the closing side still owns on the simulated network is inspected right after the scheduler event in which its closed notification fired. The leaked accepted connection this found was repaired in repo commit 0d9ef10 (fix:).",
     note=DIL_NOTE)
+
+TABLE["C16"] = dict(engine="simworld", technique="property-based testing: Hypothesis-generated ping intervals, pong delays, silence onsets, pre-monitoring reconnects on the simulated clock against the real Manager/TrafficTimer in a real dilated pair; oracle = drop within 3 intervals of the last answered ping, never drop a responsive peer, new generation + resumed monitoring afterwards, no monitor timer after loss or close",
+    text="Time is owned by the harness: the clock jumps from timer to timer, the Follower->Leader bytes of the link in use are delayed or black-holed per case, pings/pongs/disconnects are observed through wrappers on the Leader; zero-latency exchanges that never let time pass are given a small round-trip time so that ping storms show up as late drops rather than livelock.",
+    note=DIL_NOTE + " Simulated clock only; float tolerance 1e-9.")
